@@ -75,26 +75,12 @@ def nums():
 
 
 def run_pipeline(model, source, hoist=True):
-    from ..absnodes import set_parents, std_hooks
-    from ..absprint import print_obj, to_obj
-    mod = to_obj(ast.parse(source))
-    set_parents(mod)
-    hooks = dict(std_hooks(), **{'dir': lambda I, e, args, kw, env: dir(builtins)})
-    I = Interp(model, MAPPER, hooks, max_depth=600)
-    I.MAX_PATHS = 8
-
-    def thunk():
-        I.call_function(MAPPER + '.add_namespace', [mod])
-        I.call_function(R + 'bind_names.bind_names', [mod])
-        I.call_function(R + 'resolve_names.resolve_names', [mod])
-        I.call_function(R + 'util.allow_rename_locals', [mod, False, []])
-        I.call_function(R + 'util.allow_rename_globals', [mod, False, []])
-        if hoist:
-            I.call_function(R + 'rename_literals.rename_literals', [mod])
-        I.call_function(R + 'renamer.rename', [mod], {'prefix_globals': True, 'preserved_globals': []})
-    res = I.explore(thunk)
-    if len(res) != 1 or res[0][0][0] != 'return':
-        raise AnalysisError('UNDECIDED: hoisting pipeline on a probe -> %s %s' % ([r[0] for r in res][:2], res[0][2][:3]))
+    """minify() itself, evaluated with only hoist_literals on; the module it hands to the printer is printed by the repository's printer."""
+    from ..absprint import print_obj
+    from ..minrun import minify_tree
+    kind, _tree, mod = minify_tree(model, source, {'hoist_literals': hoist})
+    if kind != 'ok':
+        raise AnalysisError('UNDECIDED: minify(hoist_literals=%s) on a probe -> %s %s' % (hoist, kind, _tree))
     kind, text = print_obj(model, mod)
     if kind != 'ok':
         raise AnalysisError('UNDECIDED: printing the hoisted probe: %s %s' % (kind, text))
@@ -144,6 +130,19 @@ def dehoist(original_source, text):
                 problems.append('alias %s is used outside the scope in which it is assigned' % nm)
                 break
 
+    # places where a name would mean something else than the literal
+    for n in ast.walk(out):
+        if isinstance(n, ast.ClassDef):
+            for st in n.body:
+                if isinstance(st, ast.Assign) and any(isinstance(t, ast.Name) and t.id == '__slots__' for t in st.targets):
+                    used = sorted({x.id for x in ast.walk(st.value) if isinstance(x, ast.Name) and x.id in aliases})
+                    if used:
+                        problems.append('the strings of %s.__slots__ are replaced by the aliases %s' % (n.name, used))
+    for a_, b_ in zip([x for x in ast.walk(orig) if isinstance(x, (ast.FunctionDef, ast.AsyncFunctionDef, ast.ClassDef, ast.Module))],
+                      [x for x in ast.walk(out) if isinstance(x, (ast.FunctionDef, ast.AsyncFunctionDef, ast.ClassDef, ast.Module))]):
+        if ast.get_docstring(a_, clean=False) != ast.get_docstring(b_, clean=False):
+            problems.append('the docstring of %s is no longer the first statement of its body' % getattr(a_, 'name', 'the module'))
+
     class Back(ast.NodeTransformer):
         def visit_Name(self, n):
             if n.id in aliases and isinstance(n.ctx, ast.Load):
@@ -176,7 +175,7 @@ def _direct_parent_scope(scope, node):
 
 
 def run(model, rep, rule='C06.E2E'):
-    fi = model.func(R + 'rename_literals.rename_literals')
+    fi = model.func('python_minifier.minify')
     n_alias = 0
     for label, source in sorted(PROBES.items()):
         try:
